@@ -21,7 +21,10 @@ from vf.refmodel import gates as G
 from vf.refmodel import linalg as L
 from vf.refmodel import wire_model as W
 from vf.workloads import wire_programs as WP
-from vf.worker import Reject
+
+
+class Reject(Exception):
+    """generated case outside the documented domain (caught by the section wrapper below)"""
 
 PACKAGES = ["cirq_google"]
 LEVEL = "exploration"
@@ -199,7 +202,8 @@ def cmp_param(exp, got, prec="f32"):
     return cmp_num(exp, got, prec)
 
 
-_MODE = {"orig": False}  # True while the comparator is run on the original circuit (harness self-check)
+_MODE = {"orig": False, "ignore_moment_tags": False}  # orig: comparator run on the original circuit (self-check)
+_MT = []  # (moment spec, deserialized moment) pairs whose moment tags differ, filled by cmp_circuit
 
 
 def uniform_numeric(seq):
@@ -407,9 +411,11 @@ def cmp_conds(conds, got, where):
     got = list(got)
     out = []
     # classical controls are a set
-    want = []
+    want, seen = [], set()
     for c in conds:
-        if not any(c == w for w in want):
+        k = repr(b_cond(c))  # different specs can build the same condition
+        if k not in seen:
+            seen.add(k)
             want.append(c)
     rest = list(got)
     for c in want:
@@ -519,6 +525,13 @@ def cmp_numeric_gate(ctx, kind, names, exps, gots, where):
     errs = []
     for n, e, g in zip(names, exps, gots):
         r = cmp_param(e, g)
+        period = {"phase_exponent": 2.0, "a": 2.0, "theta": 2 * math.pi, "phi": 2 * math.pi}.get(n)
+        if r and period and is_realish(e) and is_realish(g):
+            # Z^p X^t Z^-p is exactly 2-periodic in p (Z^2 = I), FSim(theta, phi) exactly 2pi-periodic in both
+            # angles; the constructors canonicalise these arguments
+            d = (float(e) - float(g)) % period
+            if min(d, period - d) <= 4e-7 * max(1.0, abs(float(e))) + 1e-7:
+                r = None
         if r:
             errs.append("%s.%s %s" % (where, n, r))
     if not errs:
@@ -580,7 +593,10 @@ def cmp_gate(ctx, kind, p, gate, where, nq=None):
             errs.append("%s: measurement width %d != %d" % (where, gate.num_qubits(), n))
         return errs
     if kind == "Wait":
-        if type(gate) is not cirq.WaitGate:
+        if type(gate) is cg.ops.WaitGateWithUnit and is_realish(b_val(p["nanos"])):
+            # WaitGateWithUnit(d) == WaitGate(d) under Cirq's value equality: one constant serves both spellings
+            ctx.event("equal-under-gate-equality:Wait")
+        elif type(gate) is not cirq.WaitGate:
             return ["%s: gate type %s, expected WaitGate" % (where, type(gate).__name__)]
         errs = []
         r = cmp_param(b_val(p["nanos"]), gate.duration.total_nanos())
@@ -590,7 +606,9 @@ def cmp_gate(ctx, kind, p, gate, where, nq=None):
             errs.append("%s: wait width %d != %d" % (where, gate.num_qubits(), p["n"]))
         return errs
     if kind == "WaitUnit":
-        if type(gate) is not cg.ops.WaitGateWithUnit:
+        if type(gate) is cirq.WaitGate:
+            ctx.event("equal-under-gate-equality:WaitUnit")
+        elif type(gate) is not cg.ops.WaitGateWithUnit:
             return ["%s: gate type %s, expected WaitGateWithUnit" % (where, type(gate).__name__)]
         errs = []
         want_ns = p["dur"][1] * {"ns": 1.0, "us": 1e3, "ms": 1e6}[p["dur"][2]]
@@ -772,7 +790,7 @@ def cmp_op(ctx, spec, op, where):
         if bool(base.use_repetition_ids) != bool(spec["use_ids"]):
             errs.append("%s: use_repetition_ids %r != %r" % (where, base.use_repetition_ids, spec["use_ids"]))
         want_ids = spec["rep_ids"]
-        if spec["use_ids"] and want_ids is None:
+        if spec["use_ids"] and want_ids is None and abs(spec["reps"]) != 1:
             want_ids = [str(i) for i in range(abs(spec["reps"]))]
         got_ids = None if base.repetition_ids is None else list(base.repetition_ids)
         if spec["use_ids"] and got_ids != want_ids:
@@ -813,7 +831,11 @@ def cmp_circuit(ctx, spec, circuit, where="circuit"):
         if len(ops) != len(ms["ops"]):
             errs.append("%s: %d operations, expected %d" % (w, len(ops), len(ms["ops"])))
             continue
-        errs += cmp_tags(ms["tags"], getattr(m, "tags", ()), w + ".tags")
+        terrs = cmp_tags(ms["tags"], getattr(m, "tags", ()), w + ".tags")
+        if terrs:
+            _MT.append((ms, m))
+            if not _MODE["ignore_moment_tags"]:
+                errs += terrs
         by_q = {}
         for op in ops:
             key = frozenset(x_qubit(q) for q in op.qubits)
@@ -860,13 +882,15 @@ def check_proto(ctx, msg, specs, circuits_pb):
         for ti in op_pb.tag_indices:
             ref(ti, "tag_value", where + ".tag")
         if spec is not None:
-            if field != PROTO_FIELD[spec["k"]]:
+            wait_alias = spec["k"] in ("Wait", "WaitUnit") and field in ("waitgate", "wait_gate_with_unit")
+            if field != PROTO_FIELD[spec["k"]] and not wait_alias:
                 errs.append("%s: proto gate field %r, expected %r" % (where, field, PROTO_FIELD[spec["k"]]))
             want_ids = [qubit_id(q) for q in spec["q"]]
             if ids != want_ids and not (spec["k"] in WP.SYMMETRIC and sorted(map(str, ids)) == sorted(want_ids)):
                 errs.append("%s: proto qubit ids %r, expected %r" % (where, ids, [qubit_id(q) for q in spec["q"]]))
-            if len(op_pb.conditioned_on) != len(spec["c"]):
-                errs.append("%s: %d conditions in proto, expected %d" % (where, len(op_pb.conditioned_on), len(spec["c"])))
+            ncond = len({repr(b_cond(c)) for c in spec["c"]})  # classical controls are a set
+            if len(op_pb.conditioned_on) != ncond:
+                errs.append("%s: %d conditions in proto, expected %d" % (where, len(op_pb.conditioned_on), ncond))
             if len(op_pb.qubits) or len(op_pb.tags):
                 errs.append("%s: deprecated inline qubits/tags used" % where)
 
@@ -893,10 +917,20 @@ def check_proto(ctx, msg, specs, circuits_pb):
             if gate_specs is not None and len(m_pb.operation_indices) != len(gate_specs):
                 errs.append("%s: %d operation indices, expected %d" % (w, len(m_pb.operation_indices), len(gate_specs)))
                 gate_specs = None
+            pool = list(gate_specs) if gate_specs is not None else None
             for j, oi in enumerate(m_pb.operation_indices):
                 o_pb = ref(oi, "operation_value", "%s.op[%d]" % (w, j))
                 if o_pb is not None:
-                    walk_op(o_pb, gate_specs[j] if gate_specs is not None else None, "%s.op[%d]" % (w, j))
+                    gs = None
+                    if pool is not None:
+                        # Moment equality is order-insensitive: match by qubit ids, not by position
+                        ids = sorted(consts[qi].qubit.id for qi in o_pb.qubit_constant_index if 0 <= qi < n and kinds[qi] == "qubit")
+                        gs = next((g_ for g_ in pool if sorted(qubit_id(q) for q in g_["q"]) == ids), None)
+                        if gs is None:
+                            errs.append("%s.op[%d]: no operation expected on qubits %r" % (w, j, ids))
+                        else:
+                            pool.remove(gs)
+                    walk_op(o_pb, gs, "%s.op[%d]" % (w, j))
             if cop_specs is not None and len(m_pb.circuit_operations) != len(cop_specs):
                 errs.append("%s: %d circuit operations, expected %d" % (w, len(m_pb.circuit_operations), len(cop_specs)))
                 cop_specs = None
@@ -988,6 +1022,59 @@ def strip_private(spec):
     return spec
 
 
+def all_moments(circuit):
+    cirq = _S["cirq"]
+    for m in circuit:
+        yield m
+        for op in m:
+            if isinstance(op.untagged, cirq.CircuitOperation):
+                yield from all_moments(op.untagged.circuit)
+            elif isinstance(op.untagged, cirq.ClassicallyControlledOperation) and isinstance(
+                    op.untagged.without_classical_controls(), cirq.CircuitOperation):
+                yield from all_moments(op.untagged.without_classical_controls().circuit)
+
+
+def structure_verdict(ctx, pairs, originals):
+    """pairs: [(spec, deserialized circuit)].  Returns (errors, mechanism).  Known defect, explained-by style:
+    the constants table is keyed by Moment equality, which ignores moment tags; when the only differences are
+    moment tags and each wrong tag tuple is the tag tuple of another original moment that Cirq considers equal,
+    the failure is classified under that mechanism."""
+    del _MT[:]
+    errs = []
+    for i, (spec, circ) in enumerate(pairs):
+        errs += [("program %d " % i if len(pairs) > 1 else "") + e for e in cmp_circuit(ctx, spec, circ)]
+    if not errs:
+        return [], None
+    mt = list(_MT)
+    _MODE["ignore_moment_tags"] = True
+    try:
+        rest = []
+        for spec, circ in pairs:
+            rest += cmp_circuit(_Quiet(), spec, circ)
+    finally:
+        _MODE["ignore_moment_tags"] = False
+    if rest or not mt:
+        return errs, "generic"
+    pool = []
+
+    def collect(c):
+        for m in c["m"]:
+            pool.append((m, b_moment(m)))
+            for op in m["ops"]:
+                if op["k"] == "CircuitOp":
+                    collect(op["sub"])
+
+    for spec, _ in pairs:
+        collect(spec)
+    for ms, got in mt:
+        mine = b_moment(ms)
+        donors = [ms_j for ms_j, built in pool if built == mine and ms_j["tags"] != ms["tags"]
+                  and not cmp_tags(ms_j["tags"], got.tags, "")]
+        if not donors:
+            return errs, "generic"
+    return errs, "C16:moment-tags-lost-on-constants-hit"
+
+
 def build_or_reject(ctx, spec):
     try:
         return b_circuit(spec)
@@ -1014,8 +1101,8 @@ def roundtrip_program(ctx, prog, label):
     msg2 = type(msg)()
     msg2.ParseFromString(data)
     back = S.deserialize(msg2)
-    errs = cmp_circuit(ctx, spec, back)
-    mech = "C16:program-roundtrip-structure"
+    errs, why = structure_verdict(ctx, [(spec, back)], [circuit])
+    mech = "C16:program-roundtrip-structure" if why in (None, "generic") else why
     ctx.check(not errs, "program-structure", mech, lambda: "; ".join(errs[:3]), errors=errs[:8], program=strip_private(spec),
               label=label)
     nconst = check_proto(ctx, msg, [spec], [msg.circuit])
@@ -1028,9 +1115,11 @@ def roundtrip_program(ctx, prog, label):
     cirq = _S["cirq"]
     if prog["mode"] == "unitary" and len(prog["qubits"]) <= 5 and not errs:
         qubits = sorted(circuit.all_qubits())
-        names = sorted(cirq.parameter_names(circuit))
-        resolver = {n: 0.37 + 0.211 * i for i, n in enumerate(names)}
+        resolver = None
         try:
+            # anything the *original* circuit cannot do is not this property's business (C10 / C12)
+            names = sorted(cirq.parameter_names(circuit))
+            resolver = {n: 0.37 + 0.211 * i for i, n in enumerate(names)}
             u0 = circuit_unitary(circuit, qubits, resolver)
         except (TypeError, ValueError) as e:
             ctx.event("semantic-skip:" + type(e).__name__)
@@ -1126,7 +1215,7 @@ def sec_multi(ctx, rng, case):
         msg2 = type(msg)()
         msg2.ParseFromString(msg.SerializeToString())
         out = S.deserialize_multi_program(msg2)
-        errs = []
+        errs, why = [], None
         if len(out) != k:
             errs.append("%d programs came back, expected %d" % (len(out), k))
         else:
@@ -1135,8 +1224,11 @@ def sec_multi(ctx, rng, case):
                     errs.append("program %d key %r != %r" % (i, key, want_keys[i]))
                 if tuple(args) != ():
                     errs.append("program %d unexpected args %r" % (i, args))
-                errs += ["program %d %s" % (i, e) for e in cmp_circuit(ctx, spec, circ)]
-        ctx.check(not errs, "multi-program-structure", "C16:multi-program-roundtrip", lambda: "; ".join(errs[:3]),
+            serrs, why = structure_verdict(ctx, [(spec, o[2]) for spec, o in zip(specs, out)], circuits)
+            why = why if not errs else "generic"
+            errs += serrs
+        ctx.check(not errs, "multi-program-structure",
+                  "C16:multi-program-roundtrip" if why in (None, "generic") else why, lambda: "; ".join(errs[:3]),
                   errors=errs[:8], programs=[strip_private(s) for s in specs], form=form)
         check_proto(ctx, msg, specs, [kc.circuit for kc in msg.keyed_circuits])
         hits = sum(count_table_hits(s) for s in specs)
@@ -1164,17 +1256,19 @@ def sec_multi(ctx, rng, case):
         sweep_spec = ("zip", [("points", "a", va), ("points", "b", vb)])
         sweep = cirq.Zip(cirq.Points("a", va), cirq.Points("b", vb))
     as_map = bool(rng.random() < 0.4)
-    calls = []
+    calls, built = [], []
 
     def fn(a, b):
         s = _subst(template, {"a": a, "b": b})
         calls.append(s)
         c = b_circuit(s)
+        built.append(c)
         if as_map:
             s2 = copy.deepcopy(s)
             s2["m"] = s2["m"][::-1]
             calls.append(s2)
-            return {"fwd": c, "rev": b_circuit(s2)}
+            built.append(b_circuit(s2))
+            return {"fwd": c, "rev": built[-1]}
         return c
 
     try:
@@ -1189,7 +1283,7 @@ def sec_multi(ctx, rng, case):
     out = S.deserialize_multi_program(msg2)
     rows = W.enumerate_sweep(sweep_spec)
     per = 2 if as_map else 1
-    errs = []
+    errs, why = [], None
     if len(out) != len(rows) * per or len(calls) != len(out):
         errs.append("%d programs came back for %d assignments x %d" % (len(out), len(rows), per))
     else:
@@ -1206,8 +1300,11 @@ def sec_multi(ctx, rng, case):
                     r = cmp_num(v, ga[n_])
                     if r:
                         errs.append("program %d arg %s %s" % (i, n_, r))
-            errs += ["program %d %s" % (i, e) for e in cmp_circuit(ctx, calls[i], circ)]
-    ctx.check(not errs, "circuit-function-structure", "C16:circuit-function-roundtrip", lambda: "; ".join(errs[:3]),
+        serrs, why = structure_verdict(ctx, [(cs, o[2]) for cs, o in zip(calls, out)], built)
+        why = why if not errs else "generic"
+        errs += serrs
+    ctx.check(not errs, "circuit-function-structure",
+              "C16:circuit-function-roundtrip" if why in (None, "generic") else why, lambda: "; ".join(errs[:3]),
               errors=errs[:8], template=strip_private(template), sweep=sweep_spec, as_map=as_map)
     check_proto(ctx, msg, calls, [kc.circuit for kc in msg.keyed_circuits])
     ctx.distinct(("cfn", repr(strip_private(template)), repr(sweep_spec), as_map), nontrivial=len(rows) > 1)
@@ -1309,13 +1406,12 @@ def sec_prog_edges(ctx, rng, case):
     elif kind == 7:  # the same moment object / equal moments many times: one constant, n indices
         n = 2 + (case // N_EDGE) % 5
         m = cirq.Moment(cirq.X(q0) ** 0.5, cirq.CZ(q1, q2))
-        c = cirq.Circuit([m] * n + [cirq.Moment(cirq.X(q0) ** 0.5, cirq.CZ(q2, q1))])
+        c = cirq.Circuit([m] * n + [cirq.Moment(cirq.X(q0) ** 0.5, cirq.CZ(q2, q1) ** 0.5)] + [m])
         back, msg = _edge_roundtrip(ctx, c)
-        ok = len(back) == n + 1 and all(
-            [x_qubit(q) for op in a for q in op.qubits] == [x_qubit(q) for op in b for q in op.qubits] for a, b in zip(back, c))
+        ok = len(back) == n + 2 and back == c
         nm = sum(1 for k in msg.constants if k.WhichOneof("const_value") == "moment_value")
         ctx.check(ok and nm == 2, "edge-moment-reuse", "C16:moment-constant-reuse",
-                  "repeated moments: %d moment constants, qubit order kept=%s" % (nm, ok))
+                  "repeated moments: %d moment constants, equal=%s" % (nm, ok))
     elif kind == 8:  # qubit order of symmetric gates is positional on the wire: CZ(a,b) then CZ(b,a)
         ops = [cirq.CZ(q0, q1), cirq.CZ(q1, q0), cirq.ISWAP(q0, q1) ** 0.5, cirq.ISWAP(q1, q0) ** 0.5,
                cirq.FSimGate(0.25, 0.5)(q0, q1), cirq.FSimGate(0.25, 0.5)(q1, q0)]
@@ -1363,12 +1459,12 @@ def sec_prog_edges(ctx, rng, case):
     elif kind == 13:  # RandomGateChannel of a two-qubit gate, depolarize on 2 qubits
         p = [0.0, 1.0, 0.5, 0.125][(case // N_EDGE) % 4]
         c = cirq.Circuit(cirq.RandomGateChannel(sub_gate=cirq.CZ ** 0.5, probability=p)(q0, q1),
-                         cirq.DepolarizingChannel(p=p * 0.5, n_qubits=2)(q1, q2))
+                         cirq.DepolarizingChannel(p=p * 0.5 + 0.125, n_qubits=2)(q1, q2))
         back, _ = _edge_roundtrip(ctx, c)
         ops = list(back.all_operations())
         ok = (type(ops[0].gate) is cirq.RandomGateChannel and ops[0].gate.probability == p
               and type(ops[0].gate.sub_gate) is cirq.CZPowGate and ops[0].gate.sub_gate.exponent == 0.5
-              and type(ops[1].gate) is cirq.DepolarizingChannel and ops[1].gate.p == p * 0.5 and ops[1].gate.n_qubits == 2)
+              and type(ops[1].gate) is cirq.DepolarizingChannel and ops[1].gate.p == p * 0.5 + 0.125 and ops[1].gate.n_qubits == 2)
         ctx.check(ok, "edge-noise", "C16:noise-channel-roundtrip", "noise channels came back as %r" % (ops,))
     elif kind == 14:  # raw tags that hash-collide across types live in one table
         tags = [(1,), (True,), (1.0,), ("1",), (0,), (False,), ("",), (b"",)]
@@ -1475,7 +1571,7 @@ def gen_arg(rng, depth=0):
     if depth >= 2:
         return "leaf"
     n = int(rng.integers(0, 4))
-    items = [gen_arg(rng, depth + 1) for _ in range(n)]
+    items = [x for x in (gen_arg(rng, depth + 1) for _ in range(n)) if x is not None]
     kind = int(rng.integers(4))
     if kind == 0:
         return items if not (items and all(isinstance(x, str) for x in items)) else items + [1]
@@ -1485,7 +1581,8 @@ def gen_arg(rng, depth=0):
     for x in items:
         try:
             hash(x)
-            if not isinstance(x, np.ndarray) and not any(x == y and type(x) is not type(y) for y in hashable):
+            if not isinstance(x, np.ndarray) and not any(
+                    is_realish(x) and is_realish(y) and x == y and type(x) is not type(y) for y in hashable):
                 hashable.append(x)
         except TypeError:
             pass
@@ -1505,6 +1602,18 @@ def _has_none(v):
 def sec_args(ctx, rng, case):
     cirq, cg, sympy, afl, v2 = _S["cirq"], _S["cg"], _S["sympy"], _S["afl"], _S["v2"]
     kind = case % 7
+    if kind == 0 and case < 7 * 8:  # sequences containing None (tuple_value can carry an unset Arg)
+        v = [[1, None], (None, 1), [1, 2.5, None], ("a", None), [None], (True, None), [None, "s"], (None, None)][case // 7]
+        try:
+            got = afl.arg_from_proto(afl.arg_to_proto(v))
+        except IndexError as e:
+            ctx.check(False, "arg-sequence-with-none", "C16:arg-sequence-with-none-indexerror",
+                      "arg_to_proto(%r) raises IndexError(%s)" % (v, e), value=repr(v))
+            return
+        r = cmp_arg(v, got)
+        ctx.check(r is None, "arg-sequence-with-none", "C16:arg-sequence-with-none-roundtrip", lambda: "%r -> %r: %s" % (v, got, r))
+        ctx.distinct(("arg-none", repr(v)))
+        return
     if kind in (0, 1):
         v = gen_arg(rng)
         msg = afl.arg_to_proto(v)
@@ -1535,7 +1644,7 @@ def sec_args(ctx, rng, case):
         msg2.ParseFromString(msg.SerializeToString())
         got = afl.condition_from_proto(msg2)
         r = cmp_cond(c, got)
-        ctx.check(r is None, "condition-roundtrip", "C16:condition-roundtrip", lambda: r, cond=c)
+        ctx.check(r is None, "condition-roundtrip", "C16:condition-roundtrip", lambda: r, condition=c)
         ctx.distinct(("cond", c))
     elif kind == 4:  # Clifford tableaux of 1..3 qubits
         n = int(rng.integers(1, 4))
@@ -1621,8 +1730,9 @@ def gen_meta(rng):
         return None
     paths = [["q0_0", "readout", "freq"], ["a"], [], ["x", "y"], ["deep", "er", "path", "here"]]
     if u < 0.8:
-        return ("dp", list(paths[int(rng.integers(len(paths)))]), [None, 1, 2, 7, -1][int(rng.integers(5))],
-                [None, "ns", "GHz", ""][int(rng.integers(4))])
+        nonempty = [p_ for p_ in paths if p_]  # a DeviceParameter without path, idx and units writes nothing at all
+        return ("dp", list(nonempty[int(rng.integers(len(nonempty)))]), [None, 1, 2, 7, -1][int(rng.integers(5))],
+                [None, "ns", "GHz"][int(rng.integers(3))])
     n = int(rng.integers(0, 3))
     dps = [(list(paths[int(rng.integers(len(paths)))]), [None, 0, 1, 3][int(rng.integers(4))]) for _ in range(n)]
     return ("md", dps or None, bool(rng.integers(2)), [None, "label", ""][int(rng.integers(3))], [None, "ns", "MHz"][int(rng.integers(3))])
@@ -1700,7 +1810,7 @@ def gen_sweep(rng, keys, depth=0, nonempty=False):
     if u < 0.9:
         key = keys.new()
         return ("concat", [gen_leaf(rng, key, unit, allow_const=(unit is None), nonempty=nonempty) for _ in range(k)])
-    rows = int(rng.integers(0, 4))
+    rows = int(rng.integers(1 if nonempty else 0, 4))
     ks = [keys.new() for _ in range(int(rng.integers(1, 3)))]
     return ("list", [{k_: float(rng.choice(SWEEP_VALUES)) if rng.random() < 0.8 else int(rng.integers(0, 9)) for k_ in ks} for _ in range(rows)])
 
@@ -1772,6 +1882,10 @@ def cirq_leaves(sw):
     return out
 
 
+def leaf_meta(lf):
+    return lf[3] if lf[0] == "points" else lf[5]
+
+
 def model_of(s):
     """strip metadata/unit fields for the refmodel enumerator"""
     if s[0] == "points":
@@ -1836,7 +1950,7 @@ def check_sweep_roundtrip(ctx, spec, rt, f64, mech, monitor="sweep-assignments",
         for lf, g in zip(leaves, gl):
             if str(g.key) != lf[1]:
                 errs.append("single sweep key %r != %r" % (g.key, lf[1]))
-            r = cmp_meta(lf[3], getattr(g, "metadata", None))
+            r = cmp_meta(leaf_meta(lf), getattr(g, "metadata", None))
             if r:
                 errs.append("sweep %s: %s" % (lf[1], r))
     ctx.check(not errs, monitor, mech, lambda: "; ".join(errs[:3]), sweep=spec, errors=errs[:6], float64=f64, **wit)
@@ -1846,6 +1960,8 @@ def check_sweep_roundtrip(ctx, spec, rt, f64, mech, monitor="sweep-assignments",
 def sec_sweeps(ctx, rng, case):
     cirq, v2, v1, cg = _S["cirq"], _S["v2"], _S["v1"], _S["cg"]
     kind = case % 10
+    if kind == 9 and case // 10 >= 12:
+        kind = 0  # the deterministic edges need only a few repetitions
     keys = _Keys(rng)
     if kind <= 5:
         spec = gen_sweep(rng, keys)
@@ -1859,7 +1975,7 @@ def sec_sweeps(ctx, rng, case):
         msg2.ParseFromString(msg.SerializeToString())
         rt = v2.sweep_from_proto(msg2)
         rows = check_sweep_roundtrip(ctx, spec, rt, f64, "C16:sweep-roundtrip")
-        ctx.distinct(("sweep", repr(spec), f64), nontrivial=len(rows) > 1 or any(lf[3] for lf in sweep_leaves(spec)))
+        ctx.distinct(("sweep", repr(spec), f64), nontrivial=len(rows) > 1 or any(leaf_meta(lf) for lf in sweep_leaves(spec)))
         ctx.sample({"sweep": spec, "float64": f64, "assignments": len(rows)})
     elif kind == 6:  # run context
         nsw = int(rng.integers(1, 4))
@@ -1867,12 +1983,16 @@ def sec_sweeps(ctx, rng, case):
         f64 = bool(rng.random() < 0.4)
         compress = bool(rng.random() < 0.5)
         specs = [gen_sweep(rng, keys) for _ in range(nsw)]
+        try:
+            built_sweeps = [b_sweep(s, rng) for s in specs]
+        except (ValueError, TypeError) as e:
+            raise Reject("sweep-builder:%s" % type(e).__name__)
         if form == 0:
             sweepable, specs = None, [("unit",)]
         elif form == 1:
-            sweepable, specs = b_sweep(specs[0], rng), specs[:1]
+            sweepable, specs = built_sweeps[0], specs[:1]
         elif form == 2:
-            sweepable = [b_sweep(s, rng) for s in specs]
+            sweepable = built_sweeps
         elif form == 3:
             d = {keys.new(): float(rng.choice(SWEEP_VALUES)) for _ in range(int(rng.integers(1, 4)))}
             sweepable, specs = cirq.ParamResolver(d), [("zip", [("points", k, [v], None, None) for k, v in d.items()])]
@@ -1970,6 +2090,7 @@ def sec_sweeps(ctx, rng, case):
         msg2.ParseFromString(msg.SerializeToString())
         rt = v2.sweep_from_proto(msg2)
         errs = []
+        mech = "C16:finite-random-variable-roundtrip"
         if type(rt) is not cg.study.FiniteRandomVariable:
             errs.append("came back as %r" % (rt,))
         else:
@@ -1981,8 +2102,16 @@ def sec_sweeps(ctx, rng, case):
             if r:
                 errs.append(r)
             if list(rt.param_tuples()) != list(frv.param_tuples()):
-                errs.append("enumerated values differ")
-        ctx.check(not errs, "random-variable-sweep", "C16:finite-random-variable-roundtrip", lambda: "; ".join(errs), dist=dist,
+                # known mechanism: the drawn values depend on the *order* of the distribution dict, and the proto
+                # map does not keep it.  Explained only if re-ordering the original reproduces what came back.
+                reordered = cg.study.FiniteRandomVariable(key, distribution={k_: dist[float(k_)] for k_ in rt.distribution},
+                                                          length=length, seed=seed)
+                if not errs and list(rt.distribution) != list(dist) and list(reordered.param_tuples()) == list(rt.param_tuples()):
+                    mech = "C16:finite-random-variable-values-depend-on-distribution-order"
+                errs.append("enumerated values differ: %r != %r (distribution order %r -> %r)" % (
+                    [v for ((_, v),) in rt.param_tuples()][:6], [v for ((_, v),) in frv.param_tuples()][:6], list(dist),
+                    list(rt.distribution)))
+        ctx.check(not errs, "random-variable-sweep", mech, lambda: "; ".join(errs), dist=dist,
                   length=length, seed=seed)
         ctx.distinct(("frv", repr(dist), length, seed, repr(meta)), nontrivial=n > 1)
     else:  # deterministic edges
@@ -2467,12 +2596,23 @@ def sec_devices(ctx, rng, case):
     ctx.sample({"gates": names, "qubits": keep, "pairs": pairs})
 
 
+def _wrap(f):
+    def g(ctx, rng, case):
+        try:
+            f(ctx, rng, case)
+        except Reject as r:
+            ctx.reject(str(r) or "out-of-domain")
+    g.__name__ = f.__name__
+    return g
+
+
 SECTIONS = [
     ("programs", sec_programs, 700, 21000, 5.0),
     ("multi", sec_multi, 210, 6300, 1.5),
-    ("prog_edges", sec_prog_edges, 160, 160, 0.4),
+    ("prog_edges", sec_prog_edges, 60, 160, 0.4),
     ("args", sec_args, 2100, 63000, 1.5),
     ("sweeps", sec_sweeps, 2000, 60000, 2.0),
     ("results", sec_results, 1420, 42600, 2.5),
     ("devices", sec_devices, 300, 9000, 2.0),
 ]
+SECTIONS = [(n, _wrap(f), a, b, w) for (n, f, a, b, w) in SECTIONS]
